@@ -15,7 +15,8 @@ import itertools
 import operator
 import pickle
 
-from traits.api import HasTraits, Any, CInt, Dict, Instance, Int, TraitError
+from traits.api import (HasTraits, Any, CInt, Dict, Instance, Int, TraitError,
+                        push_exception_handler)
 from traits.trait_dict_object import TraitDict
 from traits.observation import api as obs_api
 
@@ -42,7 +43,15 @@ META = {
              "Exhaustive over all start dicts of size 0..3 x all single operations of "
              "that grid, plus random 20-op histories in three strata (plain, setdefault through "
              "a coercing key validator, raw notifier after an observer), 40% of the bare ones "
-             "switching to a copy of the dict at a random step. distinct_nontrivial "
+             "switching to a copy of the dict at a random step; and a re-entrancy stratum "
+             "(exhaustive single operations x 8 fixed reactions, plus random 15-op histories): "
+             "a mirror listener registered first rebuilds the contents from the notifications "
+             "alone, a second listener (plain notifier / observe handler / <name>_items "
+             "listener) answers chosen notifications with 1..3 further operations on the same "
+             "dict (depth <= 2, <= 3 reactions per top-level operation), every nested operation "
+             "is judged like a top-level one against the same model, a third listener "
+             "registered last must receive the same notifications in any order. "
+             "distinct_nontrivial "
              "counts distinct (flavour, op, argument shape, outcome class, event shape, "
              "observer configuration) signatures of cases in which the dict changed, an event "
              "was emitted or an exception was raised."),
@@ -61,7 +70,13 @@ META = {
                   "evaluations_tdi": 20000,
                   # a copy next to its original: neither hears of nor changes with the other
                   "isolation_checks": 70000, "isolation_checks_copy_mutated": 60000,
-                  "isolation_checks_original_mutated": 10000, "side_mutations": 5500},
+                  "isolation_checks_original_mutated": 10000, "side_mutations": 5500,
+                  # re-entrant listeners
+                  "reentrant_ops": 26000, "reentrant_nested_ops": 26000,
+                  "reentrant_nested_content_changes": 20000,
+                  "reentrant_ops_with_2_or_more_nested": 6500, "reentrant_mirror_events": 31000,
+                  "reentrant_quiescence_checks": 26000, "reentrant_exhaustive_cases": 11000,
+                  "reentrant_histories": 1000},
         "thorough": {"evaluations": 2000000, "events_checked": 1000000, "failures_checked": 500000,
                      "observer_events_checked": 800000, "history_ops": 1800000,
                      "raw_pairs_compared": 1400000, "raw_after_observer_compared": 250000,
@@ -72,7 +87,12 @@ META = {
                      "evaluations_strict": 400000, "evaluations_shift": 500000,
                      "evaluations_tdi": 190000,
                      "isolation_checks": 700000, "isolation_checks_copy_mutated": 450000,
-                     "isolation_checks_original_mutated": 250000, "side_mutations": 140000},
+                     "isolation_checks_original_mutated": 250000, "side_mutations": 140000,
+                     "reentrant_ops": 400000, "reentrant_nested_ops": 240000,
+                     "reentrant_nested_content_changes": 130000,
+                     "reentrant_ops_with_2_or_more_nested": 70000,
+                     "reentrant_mirror_events": 330000, "reentrant_quiescence_checks": 400000,
+                     "reentrant_exhaustive_cases": 11000, "reentrant_histories": 26000},
     },
     "exhaustive_parts": "all single operations of the grid in `rule` on every start dict of size "
                         "0..3 over the validated key universe of each flavour",
@@ -83,7 +103,10 @@ META = {
                     "test of the event law) use the raw key; only keys/values that are stored "
                     "are validated",
                     "an event delivered to a listener of dict D is a delta of D: a listener of "
-                    "one dict hears nothing about changes made to a copy of it"],
+                    "one dict hears nothing about changes made to a copy of it",
+                    "notifications are delivered synchronously and depth-first: only the listener "
+                    "registered before a re-entrant one is required to receive them in operation "
+                    "order, each applicable to the contents at that time"],
 }
 
 
@@ -532,14 +555,22 @@ def arg_shape(op):
     return "-"
 
 
-def check_one(ctx, env, model, op):
-    """Run op on env.td and on a copy of model, judge.  Returns complaint key or None.
-    `model` (a dict) is updated in place when the operation is judged correct."""
-    flavour, td = env.flavour, env.td
+class Judged:
+    """What judge_op saw."""
+    __slots__ = ("before", "before_d", "after", "after_d", "rm", "rr", "bad", "bad_k", "bad_v",
+                 "ks", "own_changed")
+
+
+def judge_op(ctx, flavour, td, model, op, commit_first=False):
+    """Run op on td and on the model; judge contents, return value, exception class
+    and failure atomicity.  Returns (complaint or None, Judged).  `model` (a dict) is
+    updated in place when the operation is judged correct.  With commit_first the
+    model receives the operation before the real dict does, so that operations made
+    by a re-entrant notifier during the call are applied to the model at the same
+    point of the history as to the dict."""
     kv, vv = KV[flavour], VV[flavour]
     before = list(td.items())
     before_d = dict(before)
-    env.clear_logs()
 
     ks, vs = stored_parts(op, model)
     bad_k = any(_invalid(kv, k) for k in ks)
@@ -585,6 +616,13 @@ def check_one(ctx, env, model, op):
             apply_model(dict(model), op, kv_none, vv_none)
         except Exception as e:
             allowed.add(type(e))
+    own_changed = rm[0] == "ok" and not bad and not dict_same(m2, model)
+    saved, normal_ok = None, False
+    if commit_first and rm[0] == "ok" and not bad:
+        saved = dict(model)
+        model.clear()
+        model.update(m2)
+        m2 = model
     try:
         rr = ("ok", apply_real(td, op))
     except Exception as e:
@@ -634,12 +672,32 @@ def check_one(ctx, env, model, op):
         elif not ret_same(rr[1], rm[1]):
             complaint = "return-value-differs"
         else:
-            model.clear()
-            model.update(m2)
+            normal_ok = True
+            if saved is None:
+                model.clear()
+                model.update(m2)
+    if saved is not None and not normal_ok:
+        model.clear()
+        model.update(saved)
     ctx.ev()
     ctx.count("evaluations_" + flavour)
     if rr[0] == "exc":
         ctx.count("failures_checked")
+    j = Judged()
+    j.before, j.before_d, j.after, j.after_d, j.rm, j.rr = before, before_d, after, after_d, rm, rr
+    j.bad, j.bad_k, j.bad_v, j.ks, j.own_changed = bad, bad_k, bad_v, ks, own_changed and normal_ok
+    return complaint, j
+
+
+def check_one(ctx, env, model, op):
+    """Run op on env.td and on a copy of model, judge outcome and notifications.
+    Returns complaint key or None.  `model` (a dict) is updated in place when the
+    operation is judged correct."""
+    flavour = env.flavour
+    env.clear_logs()
+    complaint, j = judge_op(ctx, flavour, env.td, model, op)
+    before, before_d, after, after_d, rm, rr = j.before, j.before_d, j.after, j.after_d, j.rm, j.rr
+    bad, bad_k, bad_v, ks = j.bad, j.bad_k, j.bad_v, j.ks
 
     changed = not dict_same(before_d, after_d)
     evs = [e[1:] for e in env.raw1]
@@ -720,6 +778,245 @@ def check_one(ctx, env, model, op):
              "n_observers": env.n_obs, "raw2_slot": env.slot, "silent": env.silent,
              "copied": env.copied})
     return complaint
+
+
+# -- re-entrancy ------------------------------------------------------------------
+REACTOR_KINDS = ("notifier", "observe", "items")      # "items": Dict traits only
+TRIGGERS = ("any", "added", "removed", "changed")
+
+
+class ReEnv:
+    """A dict with a *mirror* registered first (it rebuilds the contents from the
+    notifications alone), a *reactor* (plain notifier / observe handler / <name>_items
+    listener) that answers chosen notifications with 1..3 further operations on the
+    same dict, and a plain recorder registered last.  Nested operations are judged
+    like top-level ones, against the same model, at the point where they happen."""
+
+    def __init__(self, ctx, flavour, state, kind, trigger, rng=None, scripts=None,
+                 max_reactions=2, max_depth=2):
+        self.ctx, self.flavour, self.kind, self.trigger = ctx, flavour, kind, trigger
+        self.rng, self.scripts = rng, scripts
+        self.max_reactions, self.max_depth = max_reactions, max_depth
+        self.root = None
+        if flavour == "tdo":
+            self.root = Holder(d=dict(state))
+            self.td, name = self.root.d, "d"
+        elif flavour == "tdi":
+            self.root = Holder(di=dict(state))
+            self.td, name = self.root.di, "di"
+        else:
+            kw = {}
+            if flavour != "none":
+                kw = {"key_validator": KV[flavour], "value_validator": VV[flavour]}
+            self.td, name = TraitDict(dict(state), **kw), "x"
+            if kind == "observe":
+                self.root = Box(x=self.td)
+        self.model = model_of(flavour, state)
+        self.mirror = dict(self.td)
+        self.mirror_log, self.late_log = [], []
+        self.mirror_complaint = None
+        self.nested_complaint = None
+        self.nested_ops = []
+        self.events = 0                  # notifications seen by the mirror
+        self.frames = []                 # events that belong to operations in flight
+        self.depth = 0
+        self.reactions_left = 0
+        self.script_no = 0
+        self.td.notifiers.insert(0, self._mirror)
+        if kind == "notifier":
+            self.td.notifiers.append(self._react_raw)
+        elif kind == "observe":
+            self.root.observe(self._react_event, name + ".items")
+        else:
+            self.root.on_trait_change(self._react_items, name + "_items")
+        self.td.notifiers.append(self._late)
+
+    # -- listeners
+    def _mirror(self, d, removed, added, changed):
+        self.events += 1
+        self.ctx.count("reentrant_mirror_events")
+        if self.depth:
+            self.ctx.count("reentrant_nested_events")
+        self.mirror_log.append((dict(removed), dict(added), dict(changed)))
+        m, c = self.mirror, None
+        if d is not self.td:
+            c = "notifier-got-another-dict"
+        elif not removed and not added and not changed:
+            c = "event-all-parts-empty"
+        for k, v in removed.items():
+            if k not in m or m[k] is not v:
+                c = c or "removed-item-not-in-contents-at-that-time"
+        for k, v in added.items():
+            if k in m:
+                c = c or "added-key-present-in-contents-at-that-time"
+        for k, v in changed.items():
+            if k not in m or m[k] is not v:
+                c = c or "changed-old-value-not-in-contents-at-that-time"
+            if k not in self.td:
+                c = c or "changed-key-gone"
+        for k in removed:
+            m.pop(k, None)
+        m.update(added)
+        for k in changed:
+            if k in self.td:
+                m[k] = self.td[k]
+        if not c and not dict_same(m, dict(self.td)):
+            # first in line: nothing ran since the operation, so the contents rebuilt
+            # from the notification are the contents the dict holds now
+            c = "contents-rebuilt-from-event-are-not-the-current-contents"
+        if c and self.mirror_complaint is None:
+            self.mirror_complaint = c
+
+    def _late(self, d, removed, added, changed):
+        self.late_log.append((dict(removed), dict(added), dict(changed)))
+
+    def _react_raw(self, d, removed, added, changed):
+        self._react(bool(removed), bool(added), bool(changed))
+
+    def _react_items(self, event):
+        self._react(bool(event.removed), bool(event.added), bool(event.changed))
+
+    def _react_event(self, event):
+        both = set(event.removed) & set(event.added)
+        self._react(len(event.removed) > len(both), len(event.added) > len(both), bool(both))
+
+    def _react(self, has_removed, has_added, has_changed):
+        if self.depth >= self.max_depth or self.reactions_left <= 0:
+            return
+        t = self.trigger
+        if not (t == "any" or (t == "added" and has_added) or (t == "removed" and has_removed)
+                or (t == "changed" and has_changed)):
+            return
+        self.reactions_left -= 1
+        self.depth += 1
+        self.ctx.count("reentrant_reactions")
+        try:
+            if self.scripts is not None:
+                ops = self.scripts[self.script_no % len(self.scripts)]
+                self.script_no += 1
+            else:
+                ops = [None] * self.rng.randint(1, 3)
+            for op in ops:
+                if self.nested_complaint is not None:
+                    break
+                if op is None:               # drawn against the contents of that moment
+                    op = random_op(self.rng, self.flavour, self.model, False)
+                elif is_f13(op, self.model, self.flavour):
+                    continue                 # that open finding has its own stratum
+                self._nested(op)
+        finally:
+            self.depth -= 1
+
+    def run_op(self, op, commit_first=True):
+        """Judge one operation (top-level or nested); returns (complaint, Judged,
+        number of notifications that belong to this operation itself)."""
+        start = self.events
+        self.frames.append(0)
+        complaint, j = judge_op(self.ctx, self.flavour, self.td, self.model, op,
+                                commit_first=commit_first)
+        inner = self.frames.pop()
+        total = self.events - start
+        if self.frames:
+            self.frames[-1] += total
+        own = total - inner
+        if complaint is None and j.own_changed and own != 1:
+            complaint = "changed-with-%s-events" % ("no" if not own else "several")
+        return complaint, j, own
+
+    def _nested(self, op):
+        self.ctx.count("reentrant_nested_ops")
+        self.nested_ops.append((self.depth,) + tuple(op))
+        complaint, j, own = self.run_op(op)
+        if j.own_changed:
+            self.ctx.count("reentrant_nested_content_changes")
+        if complaint and self.nested_complaint is None:      # the innermost one came first
+            self.nested_complaint = (op, complaint, j)
+
+
+def check_reentrant(ctx, renv, op):
+    """One top-level operation on a dict with a re-entrant listener."""
+    renv.reactions_left = renv.max_reactions
+    del renv.mirror_log[:], renv.late_log[:], renv.nested_ops[:]
+    renv.mirror_complaint = renv.nested_complaint = None
+    ctx.count("reentrant_ops")
+    complaint, j, own = renv.run_op(op)
+    key = None
+    if renv.nested_complaint:            # it happened first
+        nop, complaint, nj = renv.nested_complaint
+        key = "reentrant/nested-%s/%s" % (op_name(nop), complaint)
+    elif complaint:
+        key = "reentrant/outer-%s/%s" % (op_name(op), complaint)
+    if key is None and renv.mirror_complaint:
+        complaint = renv.mirror_complaint
+        key = "reentrant/first-listener/" + complaint
+    if key is None:
+        ctx.count("reentrant_quiescence_checks")
+        if not dict_same(renv.mirror, dict(renv.td)):
+            complaint = "contents-rebuilt-from-events-differ-at-quiescence"
+            key = "reentrant/first-listener/" + complaint
+    if key is None:
+        # a listener registered after the re-entrant one hears of nested operations
+        # before the outer one (delivery is depth-first): only the set of
+        # notifications is demanded of it, not their order
+        rest = list(renv.late_log)
+        for ev in renv.mirror_log:
+            for i, lv in enumerate(rest):
+                if all(dict_same(x, y) for x, y in zip(ev, lv)):
+                    del rest[i]
+                    break
+            else:
+                complaint = "notification-missing"
+                break
+        if complaint is None and rest:
+            complaint = "extra-notification"
+        if complaint:
+            key = "reentrant/last-listener/" + complaint
+    if len(renv.nested_ops) >= 2:
+        ctx.count("reentrant_ops_with_2_or_more_nested")
+    if renv.nested_ops or renv.mirror_log or j.rr[0] == "exc":
+        ctx.sig("reentrant", renv.flavour, renv.kind, renv.trigger, op_name(op),
+                j.rr[0] if j.rr[0] == "ok" else j.rr[1].__name__,
+                min(len(renv.nested_ops), 4), max([d for d, *_ in renv.nested_ops] or [0]),
+                renv.nested_ops[0][1] if renv.nested_ops else None, min(len(renv.mirror_log), 4))
+    if key:
+        ctx.violation(
+            key, "%s on %s dict with a re-entrant %s (reacts to %s): op=%r nested=%r model=%r "
+                 "real=%r before=%r after=%r first-listener events=%r last-listener events=%r "
+                 "contents rebuilt by first listener=%r"
+            % (complaint, renv.flavour, renv.kind, renv.trigger, op, renv.nested_ops, j.rm, j.rr,
+               j.before, j.after, renv.mirror_log[:6], renv.late_log[:6], renv.mirror),
+            {"flavour": renv.flavour, "kind": renv.kind, "trigger": renv.trigger, "op": op,
+             "nested": renv.nested_ops, "before": j.before, "after": j.after,
+             "first_listener": renv.mirror_log[:6], "last_listener": renv.late_log[:6]})
+    return key
+
+
+def is_f13(op, model, flavour):
+    """setdefault with a raw key that is absent while its validated form is present
+    (known finding F13, exercised in the main strata only)."""
+    if op[0] != "setdefault" or op[1] is UNHASH:
+        return False
+    try:
+        return op[1] not in model and KV[flavour](op[1]) in model
+    except (TraitError, TypeError):
+        return False
+
+
+def reaction_scripts(flavour):
+    """Fixed reactions for the exhaustive part: 1..3 operations, several of them
+    content-changing, keys that collide with the start states and fresh ones."""
+    uni = START_UNIVERSE[flavour]
+    a, b = uni[0], uni[-1]
+    return [
+        [("setitem", a, V(301))],
+        [("setitem", a, V(302)), ("setitem", a, V(303))],
+        [("setitem", b, V(304)), ("setitem", a, V(305)), ("popd", b, None)],
+        [("popd", a, None), ("setitem", a, V(306))],
+        [("update", "pairs", [(a, V(307)), (b, V(308))]), ("delitem", a)],
+        [("clear",), ("setdefault", b, V(309))],
+        [("setdefault", a, V(310)), ("setitem", b, V(311)), ("popitem",)],
+        [("ior", "map", [(b, V(312))]), ("setitem", b, V(313)), ("clear",)],
+    ]
 
 
 # -- copies -------------------------------------------------------------------------
@@ -992,6 +1289,9 @@ def random_op(rng, flavour, model, allow_collide):
 def run(ctx):
     # an exception inside an observer notifier must surface as a failing operation
     obs_api.push_exception_handler(handler=lambda event: None, reraise_exceptions=True)
+    # likewise for <name>_items listeners (the re-entrant ones catch what their own
+    # operations raise; anything else must not be swallowed)
+    push_exception_handler(handler=lambda *args: None, reraise_exceptions=True, main=True)
     smax = 3
     # ---- exhaustive single operations ---------------------------------------
     gi = 0
@@ -1047,6 +1347,65 @@ def run(ctx):
                     ctx.sample({"flavour": flavour, "start": state, "op": batch[len(batch) // 2][1]})
             finally:
                 ctx.end()
+    # ---- re-entrant listeners: exhaustive single operations x fixed reactions ----
+    gi = 0
+    for flavour, rmax in (("coerce", 2), ("tdo", 2), ("reject", 1), ("shift", 1)):
+        ops = [op for op in single_ops(flavour) if not (op[0] in ("update", "ior")
+                                                        and op[1] == "keysonly")]
+        scripts = reaction_scripts(flavour)
+        kinds = REACTOR_KINDS if flavour in HT else REACTOR_KINDS[:2]
+        for si, state in enumerate(start_states(flavour, rmax)):
+            batch = []
+            for op in ops:
+                gi += 1
+                if ctx.mine(gi // 64):
+                    batch.append((gi, op))
+            if not ctx.begin("rex:%s:%d" % (flavour, si),
+                             {"flavour": flavour, "state": state, "ops": len(batch)}):
+                continue
+            try:
+                for g, op in batch:
+                    k = len(scripts)
+                    if is_f13(op, model_of(flavour, state), flavour):
+                        continue
+                    renv = ReEnv(ctx, flavour, state, kinds[g % len(kinds)],
+                                 "any", scripts=scripts[g % k:] + scripts[:g % k])
+                    check_reentrant(ctx, renv, op)
+                    ctx.count("reentrant_exhaustive_cases")
+                if batch:
+                    ctx.sample({"stratum": "reentrant", "flavour": flavour, "start": state,
+                                "op": batch[len(batch) // 2][1]})
+            finally:
+                ctx.end()
+    # ---- re-entrant listeners: random histories ----------------------------------
+    nr = ctx.scale(3000, 80000)
+    for h in range(nr):
+        if not ctx.mine(h):
+            continue
+        if not ctx.begin("rehist:%d" % h):
+            continue
+        try:
+            rng = ctx.rng("rehist", h)
+            flavour = rng.choice(["reject", "coerce", "tdo", "coerce", "tdo", "none", "strict",
+                                  "shift", "tdi"])
+            kind = rng.choice(REACTOR_KINDS if flavour in HT else REACTOR_KINDS[:2])
+            uni = list(START_UNIVERSE[flavour])
+            rng.shuffle(uni)
+            state = [(k, V(i)) for i, k in enumerate(uni[:rng.randint(0, 4)])]
+            renv = ReEnv(ctx, flavour, state, kind, rng.choice(TRIGGERS), rng=rng,
+                         max_reactions=rng.choice([1, 2, 2, 3]), max_depth=rng.choice([1, 1, 2]))
+            ctx.count("reentrant_histories")
+            ops = []
+            for step in range(15):
+                op = random_op(rng, flavour, renv.model, False)
+                ops.append(op)
+                if check_reentrant(ctx, renv, op):
+                    break
+            if h < 2 * ctx.nshards:
+                ctx.sample({"stratum": "reentrant", "flavour": flavour, "reactor": kind,
+                            "trigger": renv.trigger, "start": state, "history": ops[:5]})
+        finally:
+            ctx.end()
     # ---- random histories -----------------------------------------------------
     nh = ctx.scale(16000, 400000)
     for h in range(nh):
